@@ -222,7 +222,7 @@ def passive_extras(d, tier, seed):
     if d >= 2:
         out.append(("LossyInterferometer", (d - 1, 0), {"matrix": "@T2lossy"}))
     if d >= 3:
-        out.append(("LossyInterferometer", (), {"matrix": "@T3lossy"}))
+        out.append(("LossyInterferometer", () if d == 3 else (2, 0, 1), {"matrix": "@T3lossy"}))
         out.append(("UniformLoss", (2, 0), {"transmissivity": 0.5}))
     return out
 
@@ -622,6 +622,31 @@ def passive_findings(state, parent_norm=None, conserving=False, full=False, stat
     if stats is not None:
         for u in unsupported:
             stats["unsupported/" + u] = stats.get("unsupported/" + u, 0) + 1
+    return out
+
+
+def passive_input_class(state):
+    """stable classes of a PassiveState configuration (the ones C05 uses for the defects of the general probability routine):
+    loss_kernel = 'complex-nonuniform' when the loss kernel 1 - T^+T restricted to the occupied input modes is not symmetric,
+    gram = 'complex' for a Gram matrix of particle overlaps that is not symmetric"""
+    out = {"loss_kernel": "symmetric-or-lossless", "gram": "symmetric-or-none"}
+    try:
+        ov = state._particle_overlap
+        if ov is not None and not np.isscalar(ov):
+            G = np.asarray(ov)
+            if G.size and np.abs(G - G.T).max() > 1e-9:
+                out["gram"] = "complex"
+        if state.is_lossy and len(state._occupation_numbers) >= 1:
+            occ = np.asarray(state._occupation_numbers[0], dtype=int)
+            r = [m for m, k in enumerate(occ) for _ in range(int(k))]
+            T = np.asarray(state.interferometer)
+            if r:
+                Tr = T[:, r]
+                Lk = np.eye(len(r)) - Tr.conj().T @ Tr
+                if np.abs(Lk - Lk.T).max() > 1e-9:
+                    out["loss_kernel"] = "complex-nonuniform"
+    except Exception:
+        out = {"loss_kernel": "unclassified", "gram": "unclassified"}
     return out
 
 
